@@ -161,10 +161,16 @@ def run_loop(ex, node, kind):
             raise Unsupported('for over %r' % (it,))
 
     # ---- entry
+    from .contracts import assume_instances
+    if ex.contract is not None:
+        assume_instances(ex, ex.contract, spec.get('instantiate'))
     prove_clauses(ex, label + '.entry', inv)
     head_extra = [idx_name] if mode in ('range', 'list', 'enum') else ([spec.get('seen', '_seen')] if mode == 'view' else [])
     apply_havoc(ex, spec, node.body + ([node.target] if kind == 'for' else []) , head_extra)
     assume_clauses(ex, inv)
+    from .contracts import assume_instances
+    if ex.contract is not None:
+        assume_instances(ex, ex.contract, spec.get('instantiate'))
     head_store = P.snapshot()
 
     # ---- guard
@@ -172,7 +178,10 @@ def run_loop(ex, node, kind):
         go = ex.test(ex.ev(node.test))
     elif mode == 'range':
         i = as_arith(ex.lookup(idx_name))
-        P.assume(z3.And(i >= aux['lo'] - 1, i <= aux['hi']))
+        if aux['rev']:
+            P.assume(z3.And(i >= aux['lo'] - 1, i <= aux['hi'] - 1))
+        else:
+            P.assume(z3.And(i >= aux['lo'], z3.Or(i <= aux['hi'], i == aux['lo'])))
         go = P.decide((i >= aux['lo']) if aux['rev'] else (i < aux['hi']))
         if go:
             ex.assign_target(node.target, SV(IntS, i))
